@@ -1423,7 +1423,10 @@ func (m *Machine) decimalBytes(t *Term) []*Term {
 			out = append(out, byteTerm('-'))
 			abs = tNeg(t)
 			if t.lo != nil {
-				abs = boundTerm(abs, 1, new(big.Int).Neg(t.lo).Int64())
+				// (|MinInt64| does not fit int64: the bound is set with big integers)
+				c := *abs
+				c.lo, c.hi = big.NewInt(1), new(big.Int).Neg(t.lo)
+				abs = &c
 			}
 		} else if t.hi != nil {
 			abs = boundTerm(t, 0, t.hi.Int64())
@@ -1684,6 +1687,114 @@ func init() {
 		it := a[0].(Iface)
 		return reflValue{v: it.V, t: it.T}
 	}
+	reflKind := func(t types.Type) int64 {
+		if t == nil {
+			return 0
+		}
+		switch u := t.Underlying().(type) {
+		case *types.Basic:
+			switch u.Kind() {
+			case types.Bool:
+				return 1
+			case types.Int:
+				return 2
+			case types.Int8:
+				return 3
+			case types.Int16:
+				return 4
+			case types.Int32:
+				return 5
+			case types.Int64:
+				return 6
+			case types.Uint:
+				return 7
+			case types.Uint8:
+				return 8
+			case types.Uint16:
+				return 9
+			case types.Uint32:
+				return 10
+			case types.Uint64:
+				return 11
+			case types.Uintptr:
+				return 12
+			case types.Float32:
+				return 13
+			case types.Float64:
+				return 14
+			case types.String:
+				return 24
+			case types.UnsafePointer:
+				return 26
+			}
+		case *types.Array:
+			return 17
+		case *types.Chan:
+			return 18
+		case *types.Signature:
+			return 19
+		case *types.Interface:
+			return 20
+		case *types.Map:
+			return 21
+		case *types.Pointer:
+			return 22
+		case *types.Slice:
+			return 23
+		case *types.Struct:
+			return 25
+		}
+		return 0
+	}
+	reflOf := func(m *Machine, v Value) reflValue {
+		rv, ok := v.(reflValue)
+		if !ok {
+			m.unsupported("reflect.Value of unknown origin")
+		}
+		return rv
+	}
+	I["(reflect.Value).Kind"] = func(m *Machine, fr *frame, fn *ssa.Function, a []Value) Value {
+		return mkInt64(reflKind(reflOf(m, a[0]).t))
+	}
+	I["(reflect.Value).IsValid"] = func(m *Machine, fr *frame, fn *ssa.Function, a []Value) Value {
+		return mkBool(reflOf(m, a[0]).t != nil)
+	}
+	// scalar accessors: the value itself (the engine's integers are not width-tagged)
+	for _, name := range []string{"Bool", "String", "Int", "Uint", "Float"} {
+		name := name
+		I["(reflect.Value)."+name] = func(m *Machine, fr *frame, fn *ssa.Function, a []Value) Value {
+			rv := reflOf(m, a[0])
+			k := reflKind(rv.t)
+			ok := false
+			switch name {
+			case "Bool":
+				ok = k == 1
+			case "String":
+				ok = k == 24
+				if !ok {
+					// reflect.Value.String on a non-string does not panic: "<T Value>"
+					return Str{s: "<" + fmt.Sprint(rv.t) + " Value>"}
+				}
+			case "Int":
+				ok = k >= 2 && k <= 6
+			case "Uint":
+				ok = k >= 7 && k <= 12
+			case "Float":
+				ok = k == 13 || k == 14
+			}
+			if !ok {
+				m.rtPanic("reflect: call of reflect.Value." + name + " on value of another kind")
+			}
+			return rv.v
+		}
+	}
+	I["(reflect.Value).Interface"] = func(m *Machine, fr *frame, fn *ssa.Function, a []Value) Value {
+		rv := reflOf(m, a[0])
+		if rv.t == nil {
+			m.rtPanic("reflect: call of reflect.Value.Interface on zero Value")
+		}
+		return Iface{T: rv.t, V: rv.v}
+	}
 	I["(reflect.Value).Len"] = func(m *Machine, fr *frame, fn *ssa.Function, a []Value) Value {
 		rv, ok := a[0].(reflValue)
 		if !ok {
@@ -1749,10 +1860,41 @@ func init() {
 			m.unsupported("json.Decode into nil")
 		}
 		pt, isPtr := tgt.T.Underlying().(*types.Pointer)
+		if isPtr {
+			if _, isIface := pt.Elem().Underlying().(*types.Interface); isIface {
+				// Decode(&v) with v of interface type: the value arrives with its dynamic type
+				store(tgt.V.(*Value), Iface{T: next.T, V: jsonFresh(next.V)})
+				return Iface{}
+			}
+		}
 		if !isPtr || !types.Identical(pt.Elem(), next.T) {
 			m.unsupported("json model: queued value of type %v does not fit target %v", next.T, tgt.T)
 		}
-		store(tgt.V.(*Value), copyVal(next.V))
+		// encoding/json semantics for a target that already holds data: keys absent from the JSON
+		// object leave the struct field untouched, and an object decoded into a non-nil map adds
+		// to / overwrites in that map (its other entries stay). The harness writes absent keys as
+		// zero fields.
+		cell := tgt.V.(*Value)
+		if nv, isStruct := next.V.(structV); isStruct {
+			if cur, ok := (*cell).(structV); ok && len(cur) == len(nv) {
+				for i := range nv {
+					if jsonAbsent(nv[i]) {
+						continue
+					}
+					if nm, isMap := nv[i].(*MapV); isMap && nm != nil {
+						if cm, ok := cur[i].(*MapV); ok && cm != nil {
+							for _, e := range nm.entries {
+								m.mapUpdate(cm, e.k, e.v)
+							}
+							continue
+						}
+					}
+					cur[i] = jsonFresh(nv[i])
+				}
+				return Iface{}
+			}
+		}
+		store(cell, jsonFresh(next.V))
 		return Iface{}
 	}
 	I["(*encoding/json.Decoder).Token"] = func(m *Machine, fr *frame, fn *ssa.Function, a []Value) Value {
@@ -1767,6 +1909,71 @@ func init() {
 		q, _ := m.ghost["jsonq"].(tuple)
 		return mkBool(len(q) > 0)
 	}
+}
+
+// jsonFresh: what a decoder produces never aliases the harness' queued values (maps and slices
+// are rebuilt), so that code which clears or refills a decoded map does not change the "file".
+func jsonFresh(v Value) Value {
+	switch x := v.(type) {
+	case structV:
+		c := make(structV, len(x))
+		for i := range x {
+			c[i] = jsonFresh(x[i])
+		}
+		return c
+	case arrayV:
+		c := make(arrayV, len(x))
+		for i := range x {
+			c[i] = jsonFresh(x[i])
+		}
+		return c
+	case *MapV:
+		if x == nil {
+			return x
+		}
+		c := &MapV{conc: map[string]*mapEntry{}}
+		for _, e := range x.entries {
+			ne := &mapEntry{k: copyVal(e.k), v: jsonFresh(e.v)}
+			c.entries = append(c.entries, ne)
+		}
+		for k, e := range x.conc {
+			for i, oe := range x.entries {
+				if oe == e {
+					c.conc[k] = c.entries[i]
+				}
+			}
+		}
+		return c
+	case sliceV:
+		if x.nil {
+			return x
+		}
+		a := make([]Value, x.len)
+		for i := 0; i < x.len; i++ {
+			a[i] = jsonFresh(*x.at(i))
+		}
+		return sliceV{a: a, off: 0, len: x.len, cap: x.len}
+	}
+	return v
+}
+
+// jsonAbsent: a zero field of a queued entity stands for a key that is absent from the JSON text.
+func jsonAbsent(v Value) bool {
+	switch x := v.(type) {
+	case nil:
+		return true
+	case Str:
+		return x.Len() == 0
+	case *Term:
+		return x.IsConst() && (x.iv == nil || x.iv.Sign() == 0) && !x.bv
+	case *MapV:
+		return x == nil || len(x.entries) == 0
+	case sliceV:
+		return x.nil || x.len == 0
+	case Iface:
+		return x.T == nil
+	}
+	return isNilValue(v)
 }
 
 // ---------- jsoniter.Stream model (contract: an append-only buffer in front of a writer) ----------
